@@ -7,6 +7,7 @@ import TlshVerif.Model.Easy
 import TlshVerif.Theorems.C02
 import TlshVerif.Theorems.C04
 import TlshVerif.Theorems.C05
+import TlshVerif.Theorems.C08
 
 namespace TlshVerif.Theorems.C13
 
@@ -74,6 +75,28 @@ theorem compare_case_prefix_insensitive (cc : CodecCfg) (dc : CompareCfg) (v : V
     (C04.parse_injective_up_to_case_and_prefix cc cc v l l' none none a a' p p' hl hl' rp rp').mpr hd
   subst this
   rw [compare_with_match, compare_with_match, hl, hl']
+
+/-- End to end over the text form: for well-formed hashes `a`, `b`, the helper
+applied to their canonical texts — with or without the `T1` prefix, chosen
+independently per side, for every encoder that produced the texts
+(`Model.toText` / `store_into_str_bytes` write `Spec.format`, C04/C14) —
+returns exactly the reference distance of `a` and `b`.  Composes C04
+(`parse_format`), C02 (`compare_eq_spec`) and `compare_with_match`. -/
+theorem compare_formatted (cc : CodecCfg) (hc : cc.strict = false) (dc : CompareCfg) (v : Variant)
+    (hv : v.Valid) (a b : Hash) (ha : a.WF v) (hb : b.WF v) (p q : Spec.Prefix) :
+    compareWith Ref.codec Ref.strict cc Ref.compareRaw dc v (Spec.format a p) (Spec.format b q)
+      = .ok (Spec.distance a b false) :=
+  (compare_with_spec cc dc v hv _ _).2.1 a b (C04.parse_format cc hc v a ha p).2
+    (C04.parse_format cc hc v b hb q).2
+
+/-- … and therefore the helper on canonical texts is reflexive (distance 0 of a
+hash's text with its own text, prefixed or not) and symmetric. -/
+theorem compare_formatted_symm (cc : CodecCfg) (hc : cc.strict = false) (dc : CompareCfg)
+    (v : Variant) (hv : v.Valid) (a b : Hash) (ha : a.WF v) (hb : b.WF v) (p q : Spec.Prefix) :
+    compareWith Ref.codec Ref.strict cc Ref.compareRaw dc v (Spec.format a p) (Spec.format b q)
+      = compareWith Ref.codec Ref.strict cc Ref.compareRaw dc v (Spec.format b q) (Spec.format a p) := by
+  rw [compare_formatted cc hc dc v hv a b ha hb p q, compare_formatted cc hc dc v hv b a hb ha q p,
+    C08.dist_comm]
 
 /-- Non-vacuity: both premises of `compare_with_spec` are met by concrete strings
 (an accepted upper-case text with prefix and an accepted lower-case text
